@@ -667,7 +667,7 @@ def generate(src_dir):
         if isinstance(n, ast.If):
             abor_test = src(n.test)
     out = emit.HEADER.format(src=str(path))
-    out += "From Coq Require Import String.\nFrom Verif Require Import Lib.Facts.\nOpen Scope string_scope.\n\n"
+    out += "From Coq Require Import String.\nFrom Verif Require Import Lib.Facts.\nLocal Open Scope string_scope.\n\n"
     out += "Definition translator_ok : bool := true.\n\n"
     out += "Definition dispatcher : dispatcher_facts :=\n  " + dfacts + ".\n\n"
     out += "Definition handlers : list handler := [\n  " + ";\n  ".join(hs) + "\n].\n\n"
